@@ -509,6 +509,44 @@ class Calls:
                 out.add(x)
         return out
 
+    def registration_writers(self, which):
+        """The functions that *are* the act of registering: the function validates() / FormatChecker.checks() hands back
+        (whatever it is called), and helpers every one of whose call sites lies inside such a function (a `_register(version, cls)`
+        split out of the decorator).  which: "validators" | "formats"."""
+        key = ("regw", which)
+        if key in self._edges:
+            return self._edges[key]
+        if which == "validators":
+            outer = self.prog.func("validators.validates")
+        else:
+            outer = self.prog.cls("_format.FormatChecker").methods["checks"]
+        ws = self.with_private_helpers({x for x in outer.nested.values() if isinstance(x, Func)})
+        self._edges[key] = ws
+        return ws
+
+    def with_private_helpers(self, base):
+        """base plus the module-level private functions (`_name`) of the same modules every one of whose call sites lies inside
+        the set: a step of one of the base functions split out under its own name."""
+        if ("preds",) not in self._edges:
+            preds = {}
+            for f in self.prog.funcs.values():
+                for g in self.successors(f):
+                    if not (isinstance(g, Func) and g in f.nested.values() and not any(
+                            isinstance(n, ast.Call) and any(t.kind == "func" and t.func is g for t in self.callee(f, n)) for n in walk_body(f))):
+                        preds.setdefault(g, set()).add(f)
+            self._edges[("preds",)] = preds
+        preds = self._edges[("preds",)]
+        ws = set(base)
+        mods = {f.mod for f in ws}
+        changed = True
+        while changed:
+            changed = False
+            for g, ps in preds.items():
+                if g not in ws and g.cls is None and g.outer is None and g.mod in mods and ps and ps <= ws | {g} and g.name.startswith("_"):
+                    ws.add(g)
+                    changed = True
+        return ws
+
     def reachable(self, roots):
         seen = set()
         todo = list(roots)
